@@ -153,3 +153,48 @@ def ensure_build() -> None:
     if not os.path.abspath(c.__file__).startswith(os.path.abspath(lib)):
         raise RuntimeError(f'cRepCode resolved to {c.__file__}, expected under {lib}')
     _done = True
+
+
+# ------------------------------------------------------------------------------------------------
+LOCALE_NAME = 'de_DE'
+
+
+def ensure_locale():
+    """A minimal non-English locale for the simulated machine (scenario env 'lc_time'): month and day names that are not the
+    English ones.  Compiled once with localedef(1) into the build cache; returns the directory to put into LOCPATH, or None
+    when localedef is not available (the dimension is then simply not exercised, and the evidence says so)."""
+    import shutil
+    import subprocess
+    root = os.path.join(_cache_root(), 'locale')
+    if os.path.isfile(os.path.join(root, LOCALE_NAME, 'LC_TIME')):
+        return root
+    if not shutil.which('localedef'):
+        return None
+    os.makedirs(root, exist_ok=True)
+
+    def u(text):
+        return ''.join('<U%04X>' % ord(c) for c in text)
+
+    def lst(items):
+        return ';'.join('"%s"' % u(i) for i in items)
+    charmap = ['<code_set_name> ASCII7', '<comment_char> %', '<escape_char> /', '<mb_cur_min> 1', '<mb_cur_max> 1', 'CHARMAP']
+    charmap += ['<U%04X> /x%02x' % (c, c) for c in range(128)] + ['END CHARMAP']
+    with open(os.path.join(root, 'ASCII7'), 'w') as f:
+        f.write('\n'.join(charmap) + '\n')
+    abmon = ['Gen', 'Fev', 'Mrz', 'Avr', 'Mai', 'Jun', 'Jui', 'Aou', 'Set', 'Okt', 'Nov', 'Dez']
+    mon = [m + 'uarius' for m in abmon]
+    abday = ['So', 'Mo', 'Di', 'Mi', 'Do', 'Fr', 'Sa']
+    day = [d + 'tag' for d in abday]
+    src = '\n'.join([
+        'comment_char %', 'escape_char /',
+        'LC_IDENTIFICATION', 'title "verif: minimal non-English LC_TIME"', 'END LC_IDENTIFICATION',
+        'LC_CTYPE', 'upper <U0041>;<U0042>', 'lower <U0061>;<U0062>', 'END LC_CTYPE',
+        'LC_COLLATE', 'order_start forward', 'UNDEFINED', 'order_end', 'END LC_COLLATE',
+        'LC_TIME', 'abday ' + lst(abday), 'day ' + lst(day), 'abmon ' + lst(abmon), 'mon ' + lst(mon),
+        'd_t_fmt "%s"' % u('%a %d %b %Y %T'), 'd_fmt "%s"' % u('%d.%m.%Y'), 't_fmt "%s"' % u('%T'), 'am_pm "";""', 't_fmt_ampm ""',
+        'END LC_TIME', ''])
+    with open(os.path.join(root, 'src'), 'w') as f:
+        f.write(src)
+    subprocess.run(['localedef', '-c', '-i', os.path.join(root, 'src'), '-f', os.path.join(root, 'ASCII7'), os.path.join(root, LOCALE_NAME)],
+                   stdout=subprocess.DEVNULL, stderr=subprocess.DEVNULL)
+    return root if os.path.isfile(os.path.join(root, LOCALE_NAME, 'LC_TIME')) else None
